@@ -36,6 +36,28 @@ def ctor_inline(caller, callee, depth):
 
 INLINE = {'none': None, 'small': small_inline, 'ctor': ctor_inline}
 
+_KNOWN = None
+
+
+def known_fns():
+    global _KNOWN
+    if _KNOWN is None:
+        p = os.path.join(os.path.dirname(os.path.abspath(__file__)), 'known_fns.txt')
+        _KNOWN = {l.strip() for l in open(p) if l.strip() and not l.startswith('#')}
+    return _KNOWN
+
+
+def with_helpers(pol):
+    """Every policy also inlines *unknown helpers*: crate functions that do not exist on the reference tree (a helper
+    extracted by a refactoring). Rules then see through them instead of meeting an opaque call they know nothing about."""
+    known = known_fns()
+
+    def policy(caller, callee, depth):
+        if callee.kind != 'Closure' and callee.nname not in known:
+            return True
+        return bool(pol and pol(caller, callee, depth))
+    return policy
+
 
 class Ctx:
     def __init__(self, report, tier):
@@ -49,6 +71,7 @@ class Ctx:
         if config not in self._facts:
             raw = exporter.export(config)
             f = Facts(raw)
+            f.known = known_fns()
             self._facts[config] = f
             self.report.configs.append({'config': config, 'features': f.features, 'bodies': len(f.bodies),
                                         'adts': len(f.adts), 'source_hash': f.meta.get('source_hash'),
@@ -68,7 +91,7 @@ class Ctx:
     def paths(self, f, body, inline='none', max_visits=2, modset=None):
         if isinstance(body, str):
             body = f.fn(body)
-        pol = INLINE[inline] if isinstance(inline, str) else inline
+        pol = with_helpers(INLINE[inline] if isinstance(inline, str) else inline)
         key = (id(f), body.name, inline if isinstance(inline, str) else id(inline), max_visits)
         if key not in self._paths:
             ex = Executor(f, inline=pol, max_visits=max_visits, modset=modset)
